@@ -159,7 +159,7 @@ func (w *World) buildQuery(o *Obligation, g *Gen, uses []string) string {
 	var sb strings.Builder
 	sb.WriteString("(set-option :produce-models true)\n(set-logic ALL)\n")
 	sb.WriteString(basePrelude)
-	sb.WriteString(w.structDecls(nil))
+	sb.WriteString("\x00STRUCTS\x00") // filled in at the end: only the struct sorts the finished query mentions
 	sb.WriteString(w.strlitDecls(func(n string) bool { return all[n] }))
 	if all["substr"] || all["cat"] || all["chr"] || all["bytes2str"] {
 		sb.WriteString(stringAxioms)
@@ -247,7 +247,8 @@ func (w *World) buildQuery(o *Obligation, g *Gen, uses []string) string {
 			sb.WriteString("(get-value (" + strings.Join(ask, " ") + "))\n")
 		}
 	}
-	return sb.String()
+	q := sb.String()
+	return strings.Replace(q, "\x00STRUCTS\x00", w.structDecls(func(n string) bool { return strings.Contains(q, n) }), 1)
 }
 
 func triggerMentions(w *World, lm *Lemma, spec string) bool {
